@@ -378,6 +378,15 @@ class PMarkers(StageRun):
     canonical = RefMarkers.canonical
 
 
+class PMarkersTranspose(PMarkers):
+    """the transposition workers started inside the p-mask marker stage"""
+    name = 'pMarkers.transpose'
+    worker = ('cell_type_mapper.utils.csc_to_csr_parallel',
+              '_transpose_subset_of_indices')
+    mid = ('cell_type_mapper.utils.csc_to_csr_parallel',
+           'transpose_sparse_matrix_on_disk', 'after')
+
+
 class Selection(StageRun):
     name = 'selection'
     worker = ('cell_type_mapper.marker_selection.selection_pipeline',
@@ -484,9 +493,15 @@ class Mapping(StageRun):
         # markers: every parent gets every shared gene
         tt = prob.taxonomy_tree()
         lookup = {}
+        import random
+        mrng = random.Random(prob.seed)
         for p in tt.all_parents:
             key = 'None' if p is None else '%s/%s' % (p[0], p[1])
-            lookup[key] = list(prob.shared_genes)
+            # a different subset (>= 4 genes, in no particular order) per
+            # parent
+            n = mrng.randint(min(4, len(prob.shared_genes)),
+                             len(prob.shared_genes))
+            lookup[key] = mrng.sample(prob.shared_genes, n)
         self.markers = self.d / 'query_markers.json'
         self.markers.write_text(json.dumps(lookup))
         self.out_dir = self.d / 'mapping_out'
@@ -567,7 +582,8 @@ class Mapping(StageRun):
 
 
 STAGES = {c.name: c for c in (Mapping, Stats, RefMarkers, RefMarkersTranspose,
-                              PMask, PMarkers, Selection, Transpose)}
+                              PMask, PMarkers, PMarkersTranspose, Selection,
+                              Transpose)}
 
 
 def run_all_canonical(prob_seed, n_leaves, n_proc, fixtures, workdir,
